@@ -13,6 +13,15 @@ REPO = os.environ.get('OPW_REPO', '/repo')
 def make_copy(fil, old, new):
     d = tempfile.mkdtemp(prefix='opw_selftest.', dir='/var/tmp')
     r = os.path.join(d, 'r')
+    if fil == 'GEN':
+        # generated variant: `old` names the generator, `new` its file arguments
+        assert old == 'rename_locals'
+        p = subprocess.run([sys.executable, os.path.join(VERIF, 'tools', 'rename_locals.py'), REPO, r] + list(new), capture_output=True, text=True,
+                           env=dict(os.environ, OPW_REPO=REPO))
+        if p.returncode != 0:
+            shutil.rmtree(d)
+            return None, 'generator failed: ' + (p.stderr.strip().splitlines() or ['?'])[-1]
+        return d, None
     os.makedirs(r)
     shutil.copytree(os.path.join(REPO, 'src'), os.path.join(r, 'src'))
     for f in ('Cargo.toml', 'Cargo.lock'):
